@@ -120,6 +120,56 @@ class ByteOf:
         return 'ByteOf(%s,%d,%d)' % (self.x, self.j, self.W)
 
 
+class OrBytes:
+    """lazy bitwise OR of bytes of big-endian encodings (the constant-time 'is it zero' idiom): decided at the
+    integer level when it is finally compared with 0"""
+    __slots__ = ('parts', 'const')
+
+    def __init__(self, parts, const=0):
+        self.parts = parts    # dict (id(x), W) -> (x, W, set of j)
+        self.const = const
+
+    @staticmethod
+    def of(v):
+        if isinstance(v, OrBytes):
+            return v
+        if isinstance(v, ByteOf):
+            key = (v.x.get_id() if not isinstance(v.x, int) else ('c', v.x), v.W)
+            return OrBytes({key: (v.x, v.W, frozenset([v.j]))})
+        if isinstance(v, int):
+            return OrBytes({}, v)
+        return None
+
+    def join(a, b):
+        parts = dict(a.parts)
+        for k, (x, W, js) in b.parts.items():
+            if k in parts:
+                parts[k] = (x, W, parts[k][2] | js)
+            else:
+                parts[k] = (x, W, js)
+        return OrBytes(parts, a.const | b.const)
+
+    def is_zero(self):
+        """python bool / z3 Bool for 'the OR is zero', or None when some encoding is only partly covered"""
+        if self.const != 0:
+            return False
+        cs = []
+        for x, W, js in self.parts.values():
+            if len(js) != W:
+                return None
+            cs.append(x == 0)
+        if not cs:
+            return True
+        return z3.And(*cs) if len(cs) > 1 else cs[0]
+
+    def term(self):
+        t = z3.BitVecVal(self.const, 8)
+        for x, W, js in self.parts.values():
+            for j in sorted(js):
+                t = t | tobv(ByteOf(x, j, W).term(), 8)
+        return z3.simplify(t)
+
+
 class Opaque:
     """opaque model object (reader stubs, hash models, ...)"""
 
@@ -134,7 +184,7 @@ def is_sym(v):
 
 def force(v):
     """turn lazy cell values into int / z3 term"""
-    if isinstance(v, ByteOf):
+    if isinstance(v, (ByteOf, OrBytes)):
         return v.term()
     return v
 
@@ -330,6 +380,8 @@ class Engine:
         self.trace_calls = False
         self.bounds_unknown_as_panic = True
         self.nsym = 0
+        self.debug = bool(os.environ.get('VERIF_DEBUG'))
+        self.in_init = False
         self.shift_memo = {}
         self.reset_path_state()
 
@@ -342,8 +394,14 @@ class Engine:
         self.solver.set('timeout', self.timeout_ms)
         self.pos = 0
         self.nsym = 0
+        self.lin = None
+        if getattr(self, 'abstract_ints', False):
+            import intprove
+            self.lin = intprove.Linearizer()
         self.gobj = {}
         self.path_log = []
+        if hasattr(self, 'mod_memo'):
+            self.mod_memo = {}
 
     def fresh_bv(self, name, w):
         self.nsym += 1
@@ -377,12 +435,61 @@ class Engine:
                 raise PathAbort()
             return
         self.pc.append(c)
-        self.solver.add(c)
+        self.solver.add(self.lin.abstract(c) if self.lin is not None else c)
+        if hasattr(self, 'big_bounds'):
+            self.note_bounds(c, True)
+
+    def note_bounds(self, c, pos):
+        """syntactic interval propagation for integer symbols (x <= c, x >= c, negations, conjunctions)"""
+        k = c.decl().kind()
+        if k == z3.Z3_OP_AND and pos:
+            for ch in c.children():
+                self.note_bounds(ch, True)
+            return
+        if k == z3.Z3_OP_OR and not pos:
+            for ch in c.children():
+                self.note_bounds(ch, False)
+            return
+        if k == z3.Z3_OP_NOT:
+            self.note_bounds(c.arg(0), not pos)
+            return
+        if k in (z3.Z3_OP_LE, z3.Z3_OP_GE, z3.Z3_OP_LT, z3.Z3_OP_GT) and z3.is_int(c.arg(0)):
+            a, b = c.arg(0), c.arg(1)
+            op = {z3.Z3_OP_LE: '<=', z3.Z3_OP_GE: '>=', z3.Z3_OP_LT: '<', z3.Z3_OP_GT: '>'}[k]
+            if z3.is_int_value(a) and not z3.is_int_value(b):
+                a, b = b, a
+                op = {'<=': '>=', '>=': '<=', '<': '>', '>': '<'}[op]
+            if not z3.is_int_value(b) or z3.is_int_value(a):
+                return
+            if not pos:
+                op = {'<=': '>', '>=': '<', '<': '>=', '>': '<='}[op]
+            cv = b.as_long()
+            key = ('t', a.get_id())
+            lo, hi = (self.big_bounds.get(key) or (None, None, a))[:2]
+            if op == '<=':
+                hi = cv if hi is None else min(hi, cv)
+            elif op == '<':
+                hi = cv - 1 if hi is None else min(hi, cv - 1)
+            elif op == '>=':
+                lo = cv if lo is None else max(lo, cv)
+            else:
+                lo = cv + 1 if lo is None else max(lo, cv + 1)
+            self.big_bounds[key] = (lo, hi, a)
+
+    def use_linear_abstraction(self):
+        """path feasibility is decided on the linear abstraction of the path condition (non-linear integer
+        monomials become free variables): unsat stays sound, sat may be spurious (an infeasible path is then
+        explored needlessly; counterexamples always come from the exact query in intprove and a replay)"""
+        self.abstract_ints = True
 
     def check(self, *extra):
         t0 = time.time()
         self.stats['queries'] += 1
+        if self.lin is not None:
+            extra = [self.lin.abstract(x) for x in extra]
         r = self.solver.check(*extra)
+        if self.debug and time.time() - t0 > 0.3:
+            print('  [slow query %.1fs -> %s] %s' % (time.time() - t0, r, str(extra)[:200].replace('\n', ' ')), file=sys.stderr, flush=True)
         self.stats['solver_s'] += time.time() - t0
         if r == z3.unknown:
             self.stats['unknown'] += 1
@@ -403,12 +510,19 @@ class Engine:
             if r == z3.unsat:
                 return ('proved', None)
             return ('unknown', self.solver.reason_unknown())
+        if self.lin is not None:
+            return self.prove_i(claim)
         r = self.check(z3.Not(claim))
         if r == z3.unsat:
             return ('proved', None)
         if r == z3.sat:
             return ('cex', self.solver.model())
         return ('unknown', self.solver.reason_unknown())
+
+    def prove_i(self, claim):
+        """integer-level obligation: NIA for counterexamples, linear abstraction for proofs"""
+        import intprove
+        return intprove.prove_int(self.pc, claim, stats=self.stats)
 
     def branch(self, cond):
         """decide a branch; returns python bool; forks via the decision worklist"""
@@ -489,9 +603,11 @@ class Engine:
             for name, g in self.prog.globals.items():
                 et = self.prog.types[g['t']]['elem']
                 self.gobj[name] = self.new_obj(self.zero(et), et)
+            self.in_init = True
             for ini in self.prog.inits:
                 if ini in self.prog.funcs:
                     self.call(ini, [])
+            self.in_init = False
             self.global_snapshot = ({k: [self.copyval(v[0]), v[1]] for k, v in self.heap.items()},
                                     dict(self.gobj), self.next_obj)
             self.stats['init_instrs'] = self.stats['instrs']
@@ -1066,6 +1182,20 @@ class Engine:
         soff = tobv(src.off, 64)
         nn = tobv(n, 64)
         same = z3.is_true(z3.simplify(doff == soff))
+        if self.debug and not same:
+            print('  [sym_copy general path] dst.off=%s src.off=%s n=%s tag=%s' % (dst.off, src.off, n, str(self.heap[src.obj][1])[:80]), file=sys.stderr, flush=True)
+        tag = self.heap[src.obj][1]
+        D = len(darr)
+        if isinstance(tag, tuple) and tag[0] == 'bigbytes' \
+                and z3.is_true(z3.simplify(z3.And(nn == tag[3], soff == z3.BitVecVal(tag[2], 64) - tag[3],
+                                                   doff == z3.BitVecVal(D, 64) - tag[3]))) \
+                and all(isinstance(c, int) and c == 0 for c in darr):
+            # left-padding idiom: the L significant bytes of x are copied to the last L positions of a zeroed
+            # D-byte buffer (the slice expression already established L <= D on this path), so the buffer now
+            # holds the D-byte big-endian encoding of x
+            for j in range(D):
+                darr[j] = ByteOf(tag[1], j, D)
+            return n
         for j in range(len(darr)):
             jj = z3.BitVecVal(j, 64)
             inr = z3.simplify(z3.And(z3.ULE(doff, jj), z3.ULT(jj - doff, nn)))
@@ -1120,6 +1250,19 @@ class Engine:
 
     # ------------------------------------------------------------------ arithmetic
     def binop(self, op, a, b, ta, tb, tr):
+        if isinstance(a, (ByteOf, OrBytes)) or isinstance(b, (ByteOf, OrBytes)):
+            if op == '|':
+                oa, ob = OrBytes.of(a), OrBytes.of(b)
+                if oa is not None and ob is not None:
+                    return oa.join(ob)
+            if op in ('==', '!='):
+                oa, ob = OrBytes.of(a), OrBytes.of(b)
+                if oa is not None and ob is not None and (oa.parts == {} and oa.const == 0 or ob.parts == {} and ob.const == 0):
+                    z = (ob if oa.parts == {} and oa.const == 0 else oa).is_zero()
+                    if z is not None:
+                        if isinstance(z, bool):
+                            return z if op == '==' else not z
+                        return z3.simplify(z if op == '==' else z3.Not(z))
         a = force(a)
         b = force(b)
         # pointers / interfaces / slices compare with nil
